@@ -5,6 +5,7 @@
 //!   `<id> c13 <period> <input-hex>`      LZ13CompressionFormat::compress  -> `ok <hex> rt=ok|bad alloc=ok|big`
 //!   `<id> d10|d13|f10|f13 <stream-hex>`  decompress (f* = through CompressionFormat) -> `ok <hex> x=ok|diff` | `err Invalid x=…` | `panic`
 //!   `<id> h10|h13|hf13 <stream-hex>`         as d10 / d13 / f13, output printed as `ok n=<len>,fnv=<FNV-1a 64>` (expansions >= 16 MiB)
+//!   `<id> t10|t13 <kind> <n> s<seed>`           C08 / C09 clauses on a generated input at the top of the domain (`gen_top`)
 //!   `<id> g10|g13 <kind> <r> <m> s<seed> <n>`  C10 bounds on a *generated* periodic input (sent as parameters, not
 //!                                        as hex; both sides rebuild it with the same splitmix64): see `gen_pattern`
 //! `period` = a period of the input claimed by the generator (0 = none claimed).
@@ -102,6 +103,24 @@ pub fn gen_pattern(kind: usize, r: usize, m: usize, seed: u64) -> Vec<u8> {
     pat
 }
 
+/// Inputs at the top of the domain (ops t10 / t13 `<kind> <n> s<seed>`), cheap to compress:
+///   kind 0  a run with distinct bytes at both ends: a, b, b, …, b, c
+///   kind 1  a short random pattern (period 3..40) repeated
+pub fn gen_top(kind: usize, n: usize, seed: u64) -> Vec<u8> {
+    if kind == 0 {
+        let a = seed as u8;
+        let mut v = vec![a.wrapping_add(1); n];
+        if n > 0 {
+            v[0] = a;
+            v[n - 1] = a.wrapping_add(2);
+        }
+        v
+    } else {
+        let q = 3 + (seed % 38) as usize;
+        periodic(&sm_bytes(seed, q), n)
+    }
+}
+
 struct Out {
     lines: Vec<String>,
     n: usize,
@@ -121,6 +140,10 @@ impl Out {
     fn generated(&mut self, op: &str, kind: usize, r: usize, m: usize, seed: u64, n: usize) {
         // the seed is written as `s<decimal>` so that the generic shrinker does not mistake it for a hex payload
         self.lines.push(format!("lz.{:06} {} {} {} {} s{} {}", self.n, op, kind, r, m, seed, n));
+        self.n += 1;
+    }
+    fn top(&mut self, op: &str, kind: usize, n: usize, seed: u64) {
+        self.lines.push(format!("lz.{:06} {} {} {} s{}", self.n, op, kind, n, seed));
         self.n += 1;
     }
     fn dec(&mut self, op: &str, s: &[u8]) {
@@ -271,6 +294,28 @@ fn gen_periodic(out: &mut Out, rng: &mut Rng, thorough: bool, few: bool) {
         for n in lens {
             out.compress(p, &periodic(&pattern, n));
         }
+    }
+}
+
+/// The top of the domain: 2^24 - 1 is the largest input the property speaks about (and the largest length the
+/// 24-bit header field holds); 2^24 and 2^24 + 1 are included for the model tie only (the oracle asks for
+/// "Ok or Err, no panic" there).
+fn gen_top_of_domain(out: &mut Out, rng: &mut Rng, op: &'static str, thorough: bool) {
+    const B: usize = 1 << 24;
+    // quick: three 16 MiB inputs (each needs several 128 MiB arrays in the Lean driver); the rest in thorough
+    let k = rng.below(2) as usize;
+    out.top(op, k, B - 1, rng.next());
+    if thorough || op == "t10" {
+        // (the LZ13 stream runs in two profiles: its quick tier keeps to 2^24 - 1 and 2^24)
+        out.top(op, 1 - k, B - 2, rng.next());
+    }
+    out.top(op, rng.below(2) as usize, B, rng.next());
+    if thorough {
+        out.top(op, rng.below(2) as usize, B + 1, rng.next());
+        out.top(op, 1, B - 1, rng.next());
+        out.top(op, 0, B - 2, rng.next());
+        out.top(op, 1, B - 257, rng.next());
+        out.top(op, 0, B + 65_536, rng.next());
     }
 }
 
@@ -711,11 +756,13 @@ pub fn gen_for(pid: Option<&str>, seed: u64, tier: &str) -> Vec<String> {
             out.ops = vec!["c10"];
             gen_compress(&mut out, &mut rng, thorough, 6);
             gen_periodic(&mut out, &mut rng, thorough, true);
+            gen_top_of_domain(&mut out, &mut rng, "t10", thorough);
         }
         Some("C09") => {
             out.ops = vec!["c13"];
             gen_compress(&mut out, &mut rng, thorough, 3);
             gen_periodic(&mut out, &mut rng, thorough, true);
+            gen_top_of_domain(&mut out, &mut rng, "t13", thorough);
         }
         Some("C10") => {
             out.ops = vec!["b10", "b13"];
@@ -780,8 +827,10 @@ pub fn run_line(_st: &mut super::State, line: &str) -> String {
     let f: Vec<&str> = line.split(' ').collect();
     let id = f[0];
     let out = match f[1] {
-        "c10" | "c13" | "b10" | "b13" | "g10" | "g13" => {
-            let data = if f[1].starts_with('g') {
+        "c10" | "c13" | "b10" | "b13" | "g10" | "g13" | "t10" | "t13" => {
+            let data = if f[1].starts_with('t') {
+                gen_top(f[2].parse().unwrap(), f[3].parse().unwrap(), f[4].trim_start_matches('s').parse().unwrap())
+            } else if f[1].starts_with('g') {
                 let pat = gen_pattern(f[2].parse().unwrap(), f[3].parse().unwrap(), f[4].parse().unwrap(), f[5].trim_start_matches('s').parse().unwrap());
                 periodic(&pat, f[6].parse().unwrap())
             } else {
